@@ -121,6 +121,8 @@ lp_polynomial_t* lp_polynomial_new_from_coefficient(const lp_polynomial_context_
 }
 
 void lp_polynomial_construct_copy(lp_polynomial_t* A, const lp_polynomial_t* from) {
+  // The copy is not external: take it in the current variable order
+  lp_polynomial_external_clean(from);
   A->ctx = 0;
   A->external = 0;
   lp_polynomial_set_context(A, from->ctx);
@@ -193,6 +195,7 @@ void lp_polynomial_swap(lp_polynomial_t* A1, lp_polynomial_t* A2) {
 
 void lp_polynomial_assign(lp_polynomial_t* A, const lp_polynomial_t* from) {
   if (A != from) {
+    lp_polynomial_external_clean(from);
     lp_polynomial_set_context(A, from->ctx);
     coefficient_assign(A->ctx, &A->data, &from->data);
   }
